@@ -18,6 +18,12 @@
 namespace c04 {
 
 namespace rl = ccl::rslang;
+
+// how an oracle violation is reported: libFuzzer targets trap (default); the rapidcheck harness throws instead
+struct OracleViolation { std::string oracle, msg; };
+inline bool& throwOnViolation() { static bool t = false; return t; }
+[[noreturn]] inline void violation(const std::string& oracle, const std::string& msg) { if (throwOnViolation()) throw OracleViolation{oracle, msg}; fuzz::violation(oracle, msg); }
+
 using JSON = nlohmann::ordered_json;
 
 inline bool validUtf8(const std::string& s) {
@@ -40,9 +46,9 @@ inline void checkLog(const char* who, const std::string& text, const rl::ErrorLo
   const int hi = bound(text, used) + extraPrefix;
   for (const auto& e : log.All()) {
     critical |= e.IsCritical();
-    if (e.position < 0 || e.position > hi) fuzz::violation("error-position", std::string(who) + ": position " + std::to_string(e.position) + " outside [0," + std::to_string(hi) + "] eid=" + std::to_string(e.eid) + " text=" + text);
+    if (e.position < 0 || e.position > hi) violation("error-position", std::string(who) + ": position " + std::to_string(e.position) + " outside [0," + std::to_string(hi) + "] eid=" + std::to_string(e.eid) + " text=" + text);
   }
-  if (success == critical) fuzz::violation("success-iff-no-critical-error", std::string(who) + (success ? ": reported success with a critical error logged" : ": reported failure without any critical error") + " text=" + text);
+  if (success == critical) violation("success-iff-no-critical-error", std::string(who) + (success ? ": reported success with a critical error logged" : ": reported failure without any critical error") + " text=" + text);
 }
 inline void checkJsonAnswer(const char* who, const std::string& text, const std::string& answer, int hiBound) {
   const JSON j = JSON::parse(answer);
@@ -51,10 +57,16 @@ inline void checkJsonAnswer(const char* who, const std::string& text, const std:
   for (const auto& e : j.at("errors")) {
     critical |= e.at("isCritical").get<bool>();
     const int pos = e.at("position").get<int>();
-    if (pos < 0 || pos > hiBound) fuzz::violation("error-position", std::string(who) + ": position " + std::to_string(pos) + " outside [0," + std::to_string(hiBound) + "] text=" + text);
+    if (pos < 0 || pos > hiBound) violation("error-position", std::string(who) + ": position " + std::to_string(pos) + " outside [0," + std::to_string(hiBound) + "] text=" + text);
   }
-  if (ok == critical) fuzz::violation("success-iff-no-critical-error", std::string(who) + (ok ? ": parseResult true with a critical error" : ": parseResult false without a critical error") + " text=" + text);
-  if (ok && j.contains("astText") && j.at("astText").get<std::string>().empty()) fuzz::violation("empty-ast-text", std::string(who) + ": success with empty astText text=" + text);
+  // the answer carries two analyses: the type check (parseResult) and, when it succeeds, the value-class audit
+  // (valueClass, "invalid" = failed).  Each must report failure iff it logged a critical error.
+  const bool valueFailed = ok && j.contains("valueClass") && j.at("valueClass").get<std::string>() == "invalid";
+  const bool success = ok && !valueFailed;
+  if (!ok && !critical) violation("success-iff-no-critical-error", std::string(who) + ": parseResult false without a critical error text=" + text);
+  if (success && critical) violation("success-iff-no-critical-error", std::string(who) + ": parseResult true and a valid value class with a critical error text=" + text);
+  if (valueFailed && !critical) violation("success-iff-no-critical-error", std::string(who) + ": value class invalid without a critical error text=" + text);
+  if (ok && j.contains("astText") && j.at("astText").get<std::string>().empty()) violation("empty-ast-text", std::string(who) + ": success with empty astText text=" + text);
 }
 
 // ---- fixed contexts -------------------------------------------------------------------------------
@@ -128,10 +140,10 @@ inline int runAll(const std::string& text, int hintSel, int ctxSel, const std::s
     for (auto& e : p.Errors().All()) codes.insert(e.eid);
     if (ok) {
       stage = 1;
-      if (rl::AST2String::Apply(p.AST()).empty()) fuzz::violation("empty-ast-text", "successful parse with empty AST2String text=" + text);
+      if (rl::AST2String::Apply(p.AST()).empty()) violation("empty-ast-text", "successful parse with empty AST2String text=" + text);
       const auto m = rl::Generator::FromTree(p.AST(), rl::Syntax::MATH);
       const auto a = rl::Generator::FromTree(p.AST(), rl::Syntax::ASCII);
-      if (m.empty() || a.empty()) fuzz::violation("print-empty", "FromTree returned an empty text for " + text);
+      if (m.empty() || a.empty()) violation("print-empty", "FromTree returned an empty text for " + text);
     }
   }
   {  // 2. auditor (type + value class) under the rslang-level context
@@ -144,7 +156,7 @@ inline int runAll(const std::string& text, int hintSel, int ctxSel, const std::s
       stage = 2;
       const bool vok = audit.CheckValue();
       checkLog("Auditor::CheckValue", text, audit.Errors(), vok, audit.parser.syntax);
-      if (vok != (audit.GetValueClass() != rl::ValueClass::invalid)) fuzz::violation("value-class", "CheckValue result and GetValueClass disagree for " + text);
+      if (vok != (audit.GetValueClass() != rl::ValueClass::invalid)) violation("value-class", "CheckValue result and GetValueClass disagree for " + text);
     }
   }
   // 3. interpreter (bounded: power sets of power sets and long texts are skipped - a time budget is not an oracle)
